@@ -20,6 +20,7 @@ code, and that `setresult` classifies a plug as unsuccessful.  `sortedRanged …
 inside `hostlist_sort`) is carried as a case: the daemon is gone, no reply is written. -/
 namespace Pm.Props.C02
 open Pm Pm.Client Pm.Daemon
+open Pm.Daemon.Reply
 open Pm.Dev2 (ActErr)
 
 /-- For a power command (`on off cycle reset flash unflash`) the terminal line is
